@@ -8,7 +8,8 @@ from tie.framework import g_Z, g_bool, g_list, g_nat, g_opt, g_pair, g_str, run_
 
 PROP = "C14"
 IMPORTS = "From JV Require Import Lib.Base Model.C14ClassSpec Model.C14Containers Spec.C14Spec Corr.C14Judge."
-RULE = ("seeded random class families (4-8 classes: roots, single/multiple inheritance, "
+RULE = ("seeded random class families (4-8 classes: roots, single/multiple inheritance, 12 % of the non-root classes "
+        "private i.e. underscore-named (not offered by bare name, their subclasses are), "
         "abstract classes, **kwargs classes, int/str/Class/Optional[Class] parameters added or overridden in "
         "subclasses, functions returning a class, a non-class constant; 35 % of the class-typed parameters default to a class "
         "spec lazy_instance(Sub, ..) naming a concrete, mostly proper, subclass; 35 % of the families are laid out as a package "
@@ -20,7 +21,7 @@ RULE = ("seeded random class families (4-8 classes: roots, single/multiple inher
         "nested parameter that rely on the class of its default; class paths in canonical, long (pkg.sub.Name) or re-exported "
         "form) each run together with its explicit twin, "
         "class changes between argv items (top level and nested, a quarter of them with dict_kwargs on both sides), "
-        "argument defaults, parse_object channel; plus 111 hand-made cases in every run (dotted null two levels down, "
+        "argument defaults, parse_object channel; plus 132 hand-made cases in every run (dotted null two levels down, "
         "functions with related/unrelated return type, same-named parameter of another type across a class change, "
         "dict_kwargs naming a parameter, abstract declared type, two-level nested construction, prefix-named options / "
         "parameters with merged config sources, a family that grows between two parses, Dict[str, C] / List[C] options in "
@@ -47,6 +48,12 @@ ASSUMPTIONS = [
     "submodules imported by __init__; no path through a name that a submodule merely imported); class names unique; constructors take keyword-only explicit parameters, do not "
     "call super().__init__ and log (id, type name, kwargs); functions forward their keywords to the returned class",
     "string values are identifiers that YAML loads as str (no numeric-looking strings); null only for Optional[Class]",
+    "class names are unique within a family, also across its submodules (so an ambiguous bare name never arises; the "
+    "'Multiple subclasses with name' branch of resolve_class_path_by_name is modelled but not exercised); private MODULES "
+    "(a '._' path component that is not a class name) are not generated",
+    "null is only given where the parameter is Optional[Class]: a None for an int/str/Class parameter is stored unchecked in "
+    "every channel (same root cause as the open finding C05 none-unchecked: _check_value_key returns None unchecked under "
+    "lenient_check and validation skips None) - noted in notes/C14.md, owned by C05",
     "a class with a parameter defaulting to a class spec has no **kw (with **kw the parameter resolver falls back to "
     "collecting the parents' parameters: C13's business), such defaults have int/str init_args only, and functions always "
     "forward such a parameter",
@@ -264,6 +271,8 @@ def gen_family(rng, idx):
         types_seen = {}
         for i in range(n):
             name = CNAMES[i]
+            if i > 0 and rng.random() < 0.12:
+                name = "_" + name      # a private class: not offered by bare name, its subclasses are
             earlier = [k["name"] for k in classes]
             parents = []
             if earlier and rng.random() < 0.8:
@@ -484,7 +493,8 @@ def steps_for(rng, t, prefix, top):
 def resolve_name(fam, base, nm):
     if "." in nm:
         return nm
-    hits = [k for k in fam["classes"] if k["name"] == nm and is_sub(fam, nm, base) and not k["abstract"]]
+    hits = [k for k in fam["classes"] if k["name"] == nm and is_sub(fam, nm, base) and not k["abstract"]
+            and "._" not in path_of(fam, nm)]
     return path_of(fam, nm) if len(hits) == 1 else nm
 
 
@@ -558,7 +568,14 @@ def _int_meets_str(fam, steps, dflt):
     str_names = {p["name"] for k in fam["classes"] for p in k["params"] if p["ty"][0] == "str"}
     str_names |= {p["name"] for f in fam["funcs"] for p in f["params"] if p["ty"][0] == "str"}
 
+    # likewise a null under a key that is, somewhere in the family, a parameter not typed Optional[...]: None is stored
+    # unchecked for any parameter (root cause of the open finding C05 none-unchecked), outside the modelled space
+    allp = [p for k in fam["classes"] for p in k["params"]] + [p for f in fam["funcs"] for p in f["params"]]
+    nonopt_names = {p["name"] for p in allp if p["ty"][0] != "opt"}
+
     def walk(key, r):
+        if "null" in r:
+            return key in nonopt_names
         if "i" in r:
             return key in str_names
         if "d" in r:
@@ -1098,6 +1115,21 @@ def fixed_cases():
     add(f, "Base", [{"raw": S("jvfix9.s1.Circle")}, {"nested": ["r"], "raw": I(6)}])
     add(f, "Base", [{"raw": S("jvfix9.Circle")}, {"nested": ["w"], "raw": I(6)}])
     add(f, "Base", [{"raw": S("jvfix9.s1.Circle")}, {"raw": S("jvfix9.Circle")}, {"nested": ["r"], "raw": I(6)}])
+    # a private (underscore) class between the declared type and a public class: the private class itself is not offered
+    # by bare name, everything below it is
+    f = {"mod": "jvfix10", "funcs": [], "consts": ["K0"], "subs": [], "exports": [], "classes": [
+        _K("Base", [], [_P("a", ["int"], I(1))]),
+        _K("_Shared", ["Base"], [_P("a", ["int"], I(2)), _P("s", ["int"], I(0))]),
+        _K("Deep", ["_Shared"], [_P("a", ["int"], I(3)), _P("d", ["int"], I(0))]),
+        _K("_Low", ["Deep"], [_P("a", ["int"], I(4))]), _K("Lowest", ["_Low"], [_P("l", ["int"], I(5))]),
+        _K("Holder", [], [_P("h", ["cls", "_Shared"]), _P("o", ["opt", "Base"], N)])]}
+    for nm in ("Deep", "_Shared", "jvfix10._Shared", "Lowest", "_Low", "jvfix10.Deep"):
+        add(f, "Base", [{"raw": S(nm)}])
+        add(f, "Base", [{"raw": D(("class_path", S(nm)), ("init_args", D(("a", I(9)))))}])
+        add(f, "Holder", [{"nested": ["h"], "raw": S(nm)}, {"nested": ["o"], "raw": D(("class_path", S(nm)))}])
+    add(f, "_Shared", [{"raw": S("Lowest")}, {"nested": ["l"], "raw": I(7)}])
+    add(f, "_Shared", [{"nested": ["a"], "raw": I(7)}])
+    out.append(cont_case(f, "Base", "list", [{"list": [S("Deep"), D(("class_path", S("Lowest")))], "via": "opt"}]))
     return out
 
 
@@ -1150,18 +1182,28 @@ def search(rng, tier, broken):
 
     from tie import framework as fw
 
+    import time
+
     mod = sys.modules[__name__]
+    t0 = time.time()
     cases, obs = _LAST.get("cases"), _LAST.get("obs")
     if cases is None:
         cases = generate(rng, "quick")
         obs = observe(cases)
-    bm, bi, bo = fw.judge_cases(mod, cases, obs, tag="x")
+    if tier != "quick":              # bounded: never more than one quick-sized batch
+        cases, obs = cases[:2000], obs[:2000]
     known = fw.load_known_findings(PROP)
-    spec_bad = set(bi) | {i for i, k in bo if FINDING_CLASSES.get(k) not in known}   # listed findings are not news
-    bad = sorted(spec_bad) or sorted(bm)
+    nfix = len(fixed_cases())
+    bad, kind_model = [], True
+    for lo, hi in ((0, nfix), (nfix, len(cases))):     # the hand-made cases first: small and usually enough
+        bm, bi, bo = fw.judge_cases(mod, cases[lo:hi], obs[lo:hi], tag="x")
+        spec_bad = set(bi) | {i for i, k in bo if FINDING_CLASSES.get(k) not in known}   # listed findings are not news
+        if spec_bad or bm:
+            bad = [lo + i for i in (sorted(spec_bad) or sorted(bm))]
+            kind_model = not spec_bad
+            break
     if not bad:
         return None
-    kind_model = not spec_bad
 
     def still(cands):
         o = observe(cands)
@@ -1169,7 +1211,15 @@ def search(rng, tier, broken):
         hit = set(m) if kind_model else set(b_in) | {i for i, k in b_out if FINDING_CLASSES.get(k) not in known}
         return [i in hit for i in range(len(cands))]
 
-    c = fw.shrink(mod, cases[bad[0]], still, rounds=8)
+    c = cases[bad[0]]
+    while time.time() - t0 < 40:      # greedy shrinking within the time budget (about 60 s for the whole search)
+        cands = list(shrink(c))[:40]
+        if not cands:
+            break
+        nxt = next((x for x, f in zip(cands, still(cands)) if f), None)
+        if nxt is None:
+            break
+        c = nxt
     o = observe([c])[0]
     ex = describe(c, o)
     ex["note"] = ("the implementation's observable behaviour on this input (accept/reject, normalised spec, constructor log) "
